@@ -343,6 +343,9 @@ def expression_corpus(tier='quick'):
               "'a'", '"a"', "'it\\'s'", '"q\\"x"', "'back\\\\slash'", "''", '""', "'a b'", "'1.0,'", "'a' + \"b\"", "'é '",
               'f()', 'f(a)', 'f(a, b)', 'f( a ,b )', 'f(g(a), 1 + 2)', 'f(a)(b)', 'f (a)', 'ff(a)', 'f1(a)', '_f(a)', 'if(a, b, c)',
               '[a b]', '[x\\]y]', '[a] + [b c]', '((a))', '(a + b) * c', 'a * (b + c)', '(a)', '( a )', ' a+b ', 'a  +  b', 'a\t+\tb', 'true', 'null', 'false && true',
+              '[a)] + 1', '1 + [x)] * 2', 'f([total (net)], [b)])', '([:-)] || b) && c', "'a)' + b", '"(" + \')\'', "f(')', \"(\")", "[a'b]", "['q']", "'[x]'", '[a,b]', "f([a,b], ',')",
+              "'a, b'", '[1 + 2]', "'-1'", '[if]', '[a(b]', "'f(' + [)]", '[ ]', "'\\'' + [\\]]", '"a\'b" + \'c"d\'',
+              '1.', '1. + 2 * 3', '007 + 1', '2 ** 010', '1e5', '2 * 3E2', '1_000', '1_', '12_.5', '.5', '1..2', '1e', '1e+', '0x1F', '0x', '1.5.2',
               'a +', '+', 'a b', '(a', 'a)', '', '   ', 'a + * b', '1 2', 'f(a,)', 'f(,)', 'f(a,,b)', 'f(a b)', 'a && ', '()', 'a ! b', "'abc", '1 +', '[a', 'a ** ', '* a', 'f(', 'f(a']
     out = []
     for t in texts:
